@@ -115,8 +115,9 @@ type GhostUpdate struct {
 }
 
 type CallSiteClause struct {
-	Callee string
-	Clause *Clause
+	Callee  string
+	Clause  *Clause
+	Matched bool // some call of Callee was met while the function was executed symbolically
 }
 
 type Contracts struct {
